@@ -127,6 +127,12 @@ def entries():
     main = ARG0 + [("push", 5), "EQ", ("ref", "P"), "JUMPI", ("push", 2), "PUSH0", "MSTORE"] + ret(32) + \
            [("label", "P")] + ARG0 + [("push", 5), "EQ", ("push", 0xEF), "JUMPI", ("push", 3), "PUSH0", "MSTORE"] + ret(32)
     out.append(("jumpi-decided-cond-invalid-target", {T: main}, {}))
+    # -- symbolic initial storage: a mapping entry m[arg1] (slot 2) and a scalar (slot 1) are inputs; both are published,
+    #    one of them after being overwritten on one side of a branch                                      [harness false alarm, 10.3]
+    mload = ARG1 + ["PUSH0", "MSTORE", ("push", 2), ("push", 32), "MSTORE", ("push", 64), "PUSH0", "SHA3", "SLOAD"]
+    main = mload + [("push", 64), "MSTORE", ("push", 1), "SLOAD", ("push", 96), "MSTORE"] + ARG0 + [("ref", "M"), "JUMPI", ("push", 9), ("push", 1), "SSTORE", ("label", "M"),
+                    ("push", 1), "SLOAD", ("push", 128), "MSTORE"] + mload + [("push", 160), "MSTORE"] + ret(192)
+    out.append(("symbolic-storage-mapping-and-scalar", {T: main}, {"_symbolic_storage": True}))
     return out
 
 
@@ -140,6 +146,6 @@ def descriptions(direction):
             continue
         d = {"profile": "corpus:" + name, "code": asm.assemble(accounts[T]).hex(),
              "callees": {hex(a): asm.assemble(items).hex() for a, items in accounts.items() if a != T},
-             "options": opts, "static": False, "nargs": 2}
+             "options": opts, "static": False, "nargs": 2, "symbolic_storage": bool(options.get("_symbolic_storage"))}
         descs.append(d)
     return descs
